@@ -92,30 +92,16 @@ Definition save_assoc (k : kind) (clear : bool) (os : list Z) (vs : list (list Z
   let '(ms, s') := save_loop k clear os vs (mem s) s in
   mk_st (rows s') (joins s') (tgt s') ms.
 
-(* belongs-to, Unscoped Replace: which values the captured old-key pointers read after the save *)
-Fixpoint captured_new (oldmem newmem : list (list Z)) (seen : list Z) : list Z :=
-  match oldmem, newmem with
-  | (t :: _) :: om, nm :: nms =>
-      if memz t seen then captured_new om nms seen else nm ++ captured_new om nms (t :: seen)
-  | [] :: om, _ :: nms => captured_new om nms seen
-  | _, _ => []
-  end.
-
 (* ---- Replace's second half: detach what is not in the new value ---- *)
 Definition detach_others (k : kind) (unscoped : bool) (os : list Z) (vs : list (list Z))
            (oldmem : list (list Z)) (clearing : bool) (s : st) : st :=
   match k with
   | KBelongs =>
       let r := if clearing then null_where (fun p => memz (fst p) os) (rows s) else rows s in
-      (* Unscoped: "delete the targets the owners pointed at before the call".  oldBelongsToExpr holds
-         the foreign-key FIELD VALUES captured before saveAssociation; the harness's foreign key is a
-         pointer field (pointer to int64), SaveBeforeAssociations writes the new key THROUGH that pointer, so
-         after a Replace with values the captured entries read the NEW targets (of the owners that
-         had a target before; first owner per old target value) - still a known finding.  After Clear
-         the field is replaced by a nil pointer, the captured entries still read the old targets, and
-         (since fix 75c7076: UpdateColumns runs on its own session) the DELETE removes them. *)
-      let victims := if clearing then List.concat oldmem
-                     else captured_new oldmem (mem s) [] in
+      (* Unscoped: delete the targets the owners pointed at BEFORE the call (oldBelongsToExpr holds the
+         key VALUES captured before saveAssociation), except the records linked again by this call
+         (NOT IN the keys of the values passed) - since fix 5e2c10c; Clear passes no values *)
+      let victims := filter (fun t => negb (memz t (List.concat vs))) (List.concat oldmem) in
       let t := if unscoped then delete_where (fun x => memz x victims) (tgt s) else tgt s in
       mk_st r (joins s) t (mem s)
   | KHasOne | KHasMany =>
